@@ -348,3 +348,5 @@ def run(res, facts, tier):
     r8_builder_order(res, facts)
     from . import c02_expr
     c02_expr.run_c12_rule(res, facts, tier)
+    from . import c02_nsaxis
+    c02_nsaxis.run_c12_rule(res, facts, tier)
